@@ -8,22 +8,30 @@ SEQ_NOTE = ("single session; model checking at fan-out 3 / 5-9 keys, conformance
             "through node accessors, driver-side value ids; a model failure or tool error is reported as undecided (exit 2), never as a violation")
 SEQ_TECH = "TLA+ model checking (TLC) of YkTree + TLC trace validation of real API executions (TraceTree)"
 CONC_NOTE = ("sequentially consistent executions only (one controlled thread at a time, preemption at every hooked atomic access); bounded exploration: seeded random / "
-             "PCT schedules and every single preemption of 2-thread programs over 7 tree-shape families, 1-2 operations per thread; a deadlock/livelock or tool error "
-             "is 'undecided' (exit 2) except in C09")
-CONC_TECH = "deterministic-scheduler exploration of the real code + TLC linearization search / run facts (TraceLin)"
+             "PCT schedules and every single preemption of 2-thread programs over 7-10 tree-shape families, 1-2 operations per thread; exhaustive only for the fixed "
+             "3-thread programs of the models YkConc / YkConc2 / YkConc3 / YkConc4 at fan-out 3 / 5; a deadlock/livelock or tool error is 'undecided' (exit 2) except in C09")
+CONC_TECH = ("TLA+ model checking (TLC) of the hook-grain concurrent models YkConc / YkConc2 / YkConc3 / YkConc4 (all interleavings of fixed programs) + "
+             "TLC step-level trace validation of the real code against them (TraceConc*) + deterministic-scheduler exploration of the real code judged by a TLC "
+             "linearization search (TraceLin)")
 CLAIMED = {
     "C01": dict(cat="model_checking", ref="DESIGN.md 3.6, 3.8, 6 (C01)",
-                text="Real get/put/unique-put/remove calls of 2-3 threads are executed under a deterministic scheduler that preempts at every hooked atomic access "
+                text="M: TLC explores all interleavings of get / put / unique put / remove at the grain of the hooked atomic accesses on one root border (YkConc), "
+                     "across a root border split (YkConc2), across border deletion + collapse of the interior root (YkConc3) and across a split under an existing "
+                     "parent / interior insert / interior shift-delete / collapse racing with a new root (YkConc4): every result is a binding the key had during the call (LinOK). "
+                     "S: the same programs on the real tree (fan-out 15): every logged access must be the enabled model action with the same value. "
+                     "T: Real get/put/unique-put/remove calls of 2-3 threads are executed under a deterministic scheduler that preempts at every hooked atomic access "
                      "(version, permutation, slot, link, root words) on seven tree shapes (single border, full border about to split, interior levels, next layers, "
                      "nodes that become empty); for every run TLC searches, key by key, a linearization of the recorded call/return history that ends in the quiescent "
                      "content; null or torn values are unplaceable. Thousands of distinct schedules per run of the check incl. every single preemption.",
                 note=CONC_NOTE, tech=CONC_TECH),
     "C04": dict(cat="model_checking", ref="DESIGN.md 3.6, 6 (C04)",
-                text="As C01 with scans (forward, size-limited, right-to-left) in the thread programs: every key of the interval a scan covered contributes one read "
+                text="M: YkConc programs C, D (scan of one border vs put / remove: ScanOK) and YkConc4 programs g-j (full scan over 2-3 borders vs split, interior insert, "
+                     "collapse, insert, remove: ScanOK). T: As C01 with scans (forward, size-limited, right-to-left) in the thread programs: every key of the interval a scan covered contributes one read "
                      "(returned value or ABSENT) that TLC must place in the per-key linearization (returned pairs were current, stable keys are never lost, absent keys "
                      "were absent), plus shape facts (strictly ascending, inside the interval, valid non-null values, limit respected).", note=CONC_NOTE, tech=CONC_TECH),
     "C06": dict(cat="model_checking", ref="DESIGN.md 3.6, 6 (C06)",
-                text="As C04 with the scan's node_version_vec: after every run the recorded (version, node) pairs are probed at quiescence; TLC requires that a key the scan "
+                text="M: YkConc4 programs g-j with the collected (version, node) pairs as part of the scan's result: NvOK (set never empty; every completed insert of a new key is in "
+                     "the result or has left a collected pair stale) in all interleavings. T: As C04 with the scan's node_version_vec: after every run the recorded (version, node) pairs are probed at quiescence; TLC requires that a key the scan "
                      "covered and reported absent, absent initially, never removed and put by a call that had not returned when the scan started, leaves a stale pair.",
                 note=CONC_NOTE, tech=CONC_TECH),
     "C07": dict(cat="model_checking", ref="DESIGN.md 3.7, 6 (C07)",
@@ -37,7 +45,7 @@ CLAIMED = {
                      "created and deleted, cursors closed early, sessions left open at fin) with every form of global operator new/delete interposed: TLC requires that "
                      "live bytes and blocks after each fin() do not exceed the baseline after an empty cycle; the retire/reclaim ledger of scheduler-driven runs must "
                      "release each retired object exactly once and nothing else (TraceEpoch ON={C11}).",
-                note="operator new/delete accounting only (tbb queues / glog use malloc directly); losing root-creation races are not driven yet",
+                note="operator new/delete accounting only (tbb queues / glog use malloc directly)",
                 tech="TLC trace validation of real lifecycle executions (TraceLife) and of the retire/reclaim ledger (TraceEpoch)"),
     "C14": dict(cat="model_checking", ref="DESIGN.md 3.7, 6 (C14)",
                 text="TLC checks TokenUnique / Capacity / WarnMaxJustified / EpochLag of YkEpoch for capacity 1 and 2; the harness is compiled with "
@@ -51,7 +59,9 @@ CLAIMED = {
                      "slots free, background threads alive until fin, >= 3 epoch increments and reclaim of the retired objects inside every cycle, fin joins the threads.",
                 note="real-time dependent (epoch period 2 ms, 4 s bound per cycle); 5-9 cycles per run", tech="TLA+ model checking (TLC) of YkLife + TLC trace validation of real lifecycle executions (TraceLife)"),
     "C09": dict(cat="model_checking", ref="DESIGN.md 3.6, 6 (C09)",
-                text="Every scheduler-driven run of the concurrent drivers must complete under a fair continuation: the scheduler parks threads that spin on a word until "
+                text="M: termination of every thread under weak fairness (TLC liveness) and LockOK / 'nothing locked at quiescence' in all interleavings of the programs of "
+                     "YkConc, YkConc2, YkConc3 (prev-lock retry loop, lock_parent, root lock) and YkConc4 (root-lock hand-over of lock_parent when the root collapses while a "
+                     "split waits for its parent). T: Every scheduler-driven run of the concurrent drivers (point operations, scans and cursors) must complete under a fair continuation: the scheduler parks threads that spin on a word until "
                      "somebody writes and reports 'every unfinished thread parked' (deadlock) or an exhausted step budget (livelock); at quiescence TLC checks on the dump "
                      "that no node is locked or dirty and the structure is well formed. The version-word protocol itself (mutual exclusion, termination under weak "
                      "fairness) is model checked in C17.", note=CONC_NOTE, tech=CONC_TECH),
@@ -70,12 +80,16 @@ CLAIMED = {
     "C08": dict(cat="model_checking", ref="DESIGN.md 3.5, 6 (C08)",
                 text="TLC checks WellFormed + Abs = map as invariants of all sequential histories of small models, and on canonical dumps of the real tree every few "
                      "operations: sorted unique entries, separators bound subtrees, parent/child and prev/next consistency, leaf chain = in-order borders, no dirty or "
-                     "locked node, chain listing = descent lookups = abstract map. Concurrent quiescence is covered by the concurrent checks.", note=SEQ_NOTE, tech=SEQ_TECH),
+                     "locked node, chain listing = descent lookups = abstract map. Concurrent histories: the Quiescent invariant of YkConc .. YkConc4 in all interleavings "
+                     "(found F14: stale sibling links in a surviving empty root), step-level conformance of the real code to them, and the quiescent dump of every "
+                     "scheduler-driven run (families incl. pair and chain) judged by WellFormed + three-view equality (TraceLin QUIES).", note=SEQ_NOTE + "; concurrent part: " + CONC_NOTE,
+                tech=SEQ_TECH + "; " + CONC_TECH),
     "C10": dict(cat="model_checking", ref="DESIGN.md 6 (C10)",
                 text="First sentence (sequential cursor): every real iscan_open/next sequence (both directions, all endpoint kinds, early stop) is judged by TLC "
                      "against the ordered abstract map incl. full_key and argument rejection. Second sentence: cursor steps of one thread interleaved with writers "
                      "of another under the deterministic scheduler (trees with next layers included): monotone in-interval keys, values placed in the per-key "
-                     "linearization, stable keys not skipped, the callback's version set judged as in C06, faults reported; early_abort is not exercised yet.", note=SEQ_NOTE, tech="TLC trace validation of real cursor executions (TraceTree ON={C10})"),
+                     "linearization, stable keys not skipped, the callback's version set judged as in C06, faults reported; paused cursors (a write between two iscan_next calls, incl. "
+                     "removal of the whole layer under the cursor) incl. early_abort.", note=SEQ_NOTE, tech="TLC trace validation of real cursor executions (TraceTree ON={C10})"),
     "C12": dict(cat="model_checking", ref="DESIGN.md 6 (C12)",
                 text="TLC checks the report rule on every inserting/updating Put of small models (LastOK) and judges every real put (inserted_node_info and legacy "
                      "overload) against the set of border version words that actually changed (driver snapshots all borders before/after) and the split sibling.",
@@ -93,7 +107,9 @@ CLAIMED = {
                 note=SEQ_NOTE + "; bytes compared through 64-bit FNV-1a + length", tech="TLC trace validation of real API executions (TraceMap ON={C15})"),
     "C17": dict(cat="model_checking", ref="DESIGN.md 3.3, 6 (C17)",
                 text="TLC exhaustively checks the concurrent lock/unlock/flag/stable protocol (YkVersion) and TLC judges a replay of "
-                     "every public operation of the real node_version64 on all 64 flag sets x counter boundary values (TraceVersionSeq).",
+                     "every public operation of the real node_version64 on all 64 flag sets x counter boundary values (TraceVersionSeq); 3-thread programs of lock / "
+                     "unlock / flag operations on the real word under the scheduler (preemption before every load and every CAS attempt) must be behaviours of YkVersion "
+                     "(TraceVersionConc).",
                 note="SC atomics; model counters mod 4, code modulus checked by replay at 0,1,2,2^28,2^29-2,2^29-1.",
                 tech="TLA+ model checking (TLC) + TLC trace validation of replayed implementation transitions"),
     "C18": dict(cat="model_checking", ref="DESIGN.md 3.1, 6 (C18)",
@@ -105,7 +121,9 @@ CLAIMED = {
                 tech="TLA+ model checking (TLC) + TLC trace validation of replayed comparison sites and API traces"),
     "C19": dict(cat="model_checking", ref="DESIGN.md 3.2, 6 (C19)",
                 text="TLC explores all reachable orderings of YkPerm for F=6 (8 in thorough) and judges a replay of the real 64-bit permutation word (every count, rank, "
-                     "free slot on an ordering family + random walks) against the sequence operators; exactly one word store per update.",
+                     "free slot on an ordering family + random walks) against the sequence operators; exactly one word store per update. Reader side of the last "
+                     "sentence: lookups of a leaf's keys (incl. the greatest, last rank) racing with removes / inserts in the same leaf under the scheduler, every single "
+                     "preemption, judged by the linearization search (TraceLin).",
                 note="single atomic word assumed (std::atomic<uint64_t>); F=15 orderings sampled, not enumerated.",
                 tech="TLA+ model checking (TLC) + TLC trace validation of replayed implementation transitions"),
     "C20": dict(cat="model_checking", ref="DESIGN.md 6 (C20)",
